@@ -1,14 +1,17 @@
 #!/bin/bash
 # usage: tools/seedtest.sh <patch.diff> <property-id> [tier]
-# applies a seeded change to /repo, runs the check, reverts.  prints: RESULT <id> exit=<rc> detected=<yes|no>
-patch="$1"; id="$2"; tier="${3:-quick}"
-cd /verif
-git -C /repo diff --quiet || { echo "/repo has uncommitted changes"; exit 3; }
-git -C /repo apply "$patch" || { echo "patch does not apply"; exit 3; }
-out=$(./check "$id" "$tier" 2>&1); rc=$?
-git -C /repo checkout -- .
+# Applies a seeded change to a scratch worktree of /repo (never to /repo itself), points the check at it
+# (VERIF_REPO / VERIF_BUILD / VERIF_EVIDENCE), and prints: RESULT <id> exit=<rc> detected=<yes|no>
+# The scratch worktree and its build dir live under /tmp and are removed by tools/seedclean.sh.
+patch="$(readlink -f "$1")"; id="$2"; tier="${3:-quick}"
+WT=${SEED_WT:-/tmp/verif_seedrepo}; SB=${SEED_BUILD:-/tmp/verif_seedbuild}
+cd "$(dirname "$0")/.." || exit 3
+if [ ! -d "$WT" ]; then git -C /repo worktree add --detach "$WT" HEAD >/dev/null 2>&1 || { echo "cannot create worktree"; exit 3; }; fi
+git -C "$WT" checkout -q --detach "$(git -C /repo rev-parse HEAD)" && git -C "$WT" checkout -- . && git -C "$WT" clean -fdq
+git -C "$WT" apply "$patch" || { echo "patch does not apply"; exit 3; }
+mkdir -p "$SB/evidence"
+out=$(VERIF_REPO="$WT" VERIF_BUILD="$SB" VERIF_EVIDENCE="$SB/evidence" ./check "$id" "$tier" 2>&1); rc=$?
+git -C "$WT" checkout -- .
 echo "$out" | grep -E "VIOLATION|KNOWN-FINDING|INCONCLUSIVE|^\[$id\]" | head -12
 det=no; [ $rc -eq 1 ] && det=yes
 echo "RESULT $id exit=$rc detected=$det"
-# evidence files were rewritten by a run on a mutated tree: restore the committed ones
-git checkout -- evidence 2>/dev/null
